@@ -497,6 +497,13 @@ def _parse_schema(
             existing_schema = context.parsed_schemas.get(schema_name)
             if existing_schema:
                 return existing_schema
+            # A completed schema is registered under its sanitised name: a declared name the sanitiser rewrites
+            # (HTTPError, user_profile) is found there - unless another declared schema is spelled that way
+            sanitized_key = NameSanitizer.sanitize_class_name(schema_name)
+            if sanitized_key not in context.raw_spec_schemas:
+                existing_schema = context.parsed_schemas.get(sanitized_key)
+                if existing_schema:
+                    return existing_schema
             # If schema marked as existing but not found anywhere, it might be a state management issue
             # Reset the state and continue with normal parsing
             from .unified_cycle_detection import SchemaState
